@@ -321,12 +321,12 @@ def run_b(alpha, views, path, ai, case, res, viol):
                 elif style == "plain":
                     # events strictly after the trigger must not arrive; the trigger itself may (if invoked before the op)
                     idx = next((i for i, e in enumerate(wm) if trigger and CC.ev_match(trigger, e)), None)
+                    # (events the reference leaves optional - I-2 - stay optional: the trigger may be one of them)
                     if name == "S":
                         wm = wm[: (idx + 1) if idx is not None else 0]
-                        wy = []
                     else:
                         keep = wm[: idx if idx is not None else 0]
-                        wy = [wm[idx]] if idx is not None else []
+                        wy = wy + ([wm[idx]] if idx is not None else [])
                         wm = keep
                 else:
                     # coroutine special callback acts later (as a task): removal happens after the whole message
